@@ -25,6 +25,8 @@ import copy
 
 from flat import _import_transitions
 
+import os
+REUSE_NAMES = os.environ.get('VERIF_C11_REUSE') == '1'
 SEGS = ['A', 'B', 'C', 'D', 'E', 'F', 'G', 'H', 'K', 'x', 'y', 'z', 'u', 'v', 'w', '1', '2']
 EVENTS = ['go', 'run', 'stop', 'next', 'back']
 
@@ -45,25 +47,37 @@ class G(object):
         self.free = list(SEGS)
         rng.shuffle(self.free)
 
-    def name(self, top):
+    def name(self, top, sib=None):
+        if REUSE_NAMES and not top and sib is not None:
+            # the same child names in every branch (unique among siblings only)
+            cand = [n for n in ('x', 'y', 'z', '1') if n not in sib]
+            return self.r.choice(cand) if cand else None
         for i, n in enumerate(self.free):
             if not (top and n[0].isdigit()):
                 return self.free.pop(i)
         return None
 
-    def node(self, depth, allow_embed=True):
+    def siblings(self, depth, allow_embed):
+        out = []
+        for _ in range(self.r.randint(1, 3)):
+            x = self.node(depth, allow_embed, set(k['name'] for k in out))
+            if x:
+                out.append(x)
+        return out
+
+    def node(self, depth, allow_embed=True, sib=None):
         r = self.r
-        n = self.name(depth == 0)
+        n = self.name(depth == 0, sib)
         if n is None:
             return None
         nd = dict(name=n, kids=[], trans=[], embed=None)
         if depth < 2 and r.random() < (0.6 if depth == 0 else 0.4):
             if allow_embed and r.random() < 0.3:
-                states = [x for x in (self.node(depth + 1, False) for _ in range(r.randint(1, 3))) if x]
+                states = self.siblings(depth + 1, False)
                 if states:
                     nd['embed'] = dict(states=states, trans=self.local_trans(states))
             else:
-                nd['kids'] = [x for x in (self.node(depth + 1, allow_embed) for _ in range(r.randint(1, 3))) if x]
+                nd['kids'] = self.siblings(depth + 1, allow_embed)
                 if nd['kids'] and r.random() < 0.6:
                     nd['trans'] = self.local_trans(nd['kids'])
         return nd
@@ -182,9 +196,11 @@ def gen(rng, malformed):
                     paths = local_paths(forest_after(forest, ops))
                     used_events = sorted(set(used_events) | set(t[0] for t in declared([nd])))
             else:
-                n = g.name(False)
-                if n:
-                    ops.append(['states', 'child', r.choice(paths), n])
+                parent = r.choice(paths)
+                sib = set(k['name'] for k in children_of(find_node(forest_after(forest, ops), parent)))
+                n = g.name(False, sib)
+                if n and n not in sib:
+                    ops.append(['states', 'child', parent, n])
                     paths = local_paths(forest_after(forest, ops))
         elif x < 0.9:
             ops.append(['set', r.choice(mids), r.choice(lv)])
